@@ -133,6 +133,29 @@ func bothVerdicts(inv *invocation.Token, ld delegation.Loader) (error, error) {
 
 func commandOf(s string) command.Command { return command.Command(s) }
 
+var errPanicked = errors.New("harness: the call panicked")
+
+// bothVerdictsGuarded is bothVerdicts for loaders that misbehave: a panic that reaches the caller is reported as errPanicked.
+func bothVerdictsGuarded(inv *invocation.Token, ld delegation.Loader) (e1, e2 error) {
+	func() {
+		defer func() {
+			if recover() != nil {
+				e1 = errPanicked
+			}
+		}()
+		e1 = inv.ExecutionAllowed(ld)
+	}()
+	func() {
+		defer func() {
+			if recover() != nil {
+				e2 = errPanicked
+			}
+		}()
+		e2 = inv.ExecutionAllowedWithArgsHook(ld, identityHook)
+	}()
+	return e1, e2
+}
+
 // Principal layouts of an n-link chain (link i: issuer = holder i+1, audience = holder i; holder n is
 // the subject p0, holder 0 the invoker).
 //
@@ -318,7 +341,7 @@ func longChainSub(prop string) *engine.Sub {
 			}
 			var ld delegation.Loader = &posLoader{byCid: byCid}
 			if failCid.Defined() {
-				ld = failingLoader{ld, failCid}
+				ld = failingLoader{Loader: ld, fails: failCid}
 			}
 			inv, err := invocation.New(prin(holder(0)), prin(0), "/a", prf, invocation.WithNonce(fixedNonce), invocation.WithoutInvokedAt(), invocation.WithArgument("x", 1))
 			if err != nil {
